@@ -1,6 +1,7 @@
 import RsslVerif.Model.Targets
 import RsslVerif.Model.SimplifyCbuffers
 import RsslVerif.Model.HlslModule
+import RsslVerif.Model.CompileSteps
 import RsslVerif.Model.GenHlsl
 import RsslVerif.Gen.CbufferTables
 import RsslVerif.Lemmas.MacroLite
@@ -1040,5 +1041,261 @@ example :
   decide
 
 end HlslModule
+
+section CompileSteps
+open RsslVerif.Model.CompileSteps
+
+/-- Tie to the source (pinned step order): in `compile()` the steps stand in the order argument check → preprocess →
+    prepare_tokens → parse → type_check → layout check → binding parameters → build_pipeline; nothing else can leave
+    `compile()` before the binding parameters are chosen (5 `return`s, no `?`); the Metal tool chain is named nowhere in
+    `compile()` and in `build_pipeline()` only in the Msl/MetalBytecode arm, after the export and its error return,
+    inside `if matches!(args.target, Target::MetalBytecode) { .. }`: lookup, then run.  A lookup moved to the top of
+    `compile()` (seed C18-5) puts `.toolchainLookup` second in `compileSteps` and falsifies this. -/
+theorem frontEndRunsBeforeAnyTargetSpecificStep :
+    compileSteps = [.argsCheck, .preprocess, .prepareTokens, .parse, .typeCheck, .layoutCheck, .bindingParams,
+      .buildPipelines] ∧
+    buildPrefixSteps = [.selectPipeline, .assignBindings] ∧
+    hlslArmSteps = [.exportSource, .stageRecords] ∧
+    mslArmSteps = [.exportSource, .stageRecords, .bytecodeGuard, .toolchainLookup, .toolchainRun] ∧
+    stepFacts = ⟨true, true, true, true, true, true⟩ := by decide
+
+/-- Tie to the source: the Metal tool chain crate is named nowhere in the compiler crates (front end, IR, exporters)
+    but in `build_pipeline` (the one lookup; the other two hits are the payload types of the two `CompileError` variants
+    declared after it), the error's `Display`, and the re-export in src/lib.rs - no exporter or pass can ask for it. -/
+theorem toolchain_uses_covered :
+    toolchainUses = [
+      ("src/compile.rs", "build_pipeline", "MetalCompiler", 1),
+      ("src/compile.rs", "build_pipeline", "metal_invoker", 3),
+      ("src/compile.rs", "fmt", "metal_invoker", 1),
+      ("src/lib.rs", "?", "metal_invoker", 1)] := by decide
+
+/-- **compile() = argument check, then the shared front end, then the per-pipeline builds** - for the step order of the
+    current source (`frontEndRunsBeforeAnyTargetSpecificStep` is cited: the interpreter runs the *extracted* list), any
+    world (parser, type checker, exporters, tool chain), any arguments.  In particular no step that looks at the target
+    or at the tool chain runs before the front end has accepted the file. -/
+theorem compile_factors_through_front_end {τ α ρ π σ : Type} (w : World τ α ρ π σ) (a : Args) :
+    compile w a =
+      if a.sba && a.target != Target.HlslForVulkan then .error .invalidArgs else
+      match front w a with
+      | .error e => .error (.text e)
+      | .ok m =>
+        match buildAll w a none m (w.pipelines m) with
+        | .error e => .error e
+        | .ok [] => .error (.text noPipelineText)
+        | .ok (d :: ds) => .ok (d :: ds) := by
+  have hs := frontEndRunsBeforeAnyTargetSpecificStep.1
+  by_cases hg : (a.sba && a.target != Target.HlslForVulkan) = true
+  · simp [compile, compileWith, hs, runSteps, Model.CompileSteps.step, hg]
+  · cases hrun : run w.ev (initialTable a.target a.front.user) a.front.file with
+    | error e => simp [compile, compileWith, hs, runSteps, Model.CompileSteps.step, front, frontEnd, hg, hrun]
+    | ok ts =>
+      cases hparse : w.parse (w.prepare ts) with
+      | error e =>
+        simp [compile, compileWith, hs, runSteps, Model.CompileSteps.step, front, frontEnd, afterTokens, hg, hrun, hparse]
+      | ok x =>
+        cases htc : w.typeCheck x with
+        | error e =>
+          simp [compile, compileWith, hs, runSteps, Model.CompileSteps.step, front, frontEnd, afterTokens, hg, hrun, hparse, htc]
+        | ok m =>
+          cases hvl : a.validateLayout with
+          | false =>
+            cases hb : buildAll w a none m (w.pipelines m) with
+            | error e =>
+              simp [compile, compileWith, hs, runSteps, Model.CompileSteps.step, front, frontEnd, afterTokens, hg, hrun, hparse, htc, hvl, hb]
+            | ok out =>
+              cases out <;>
+              simp [compile, compileWith, hs, runSteps, Model.CompileSteps.step, front, frontEnd, afterTokens, hg, hrun, hparse, htc, hvl, hb]
+          | true =>
+            cases hl : w.layoutCheck m with
+            | error e =>
+              simp [compile, compileWith, hs, runSteps, Model.CompileSteps.step, front, frontEnd, afterTokens, hg, hrun, hparse, htc, hvl, hl]
+            | ok u =>
+              cases hb : buildAll w a none m (w.pipelines m) with
+              | error e =>
+                simp [compile, compileWith, hs, runSteps, Model.CompileSteps.step, front, frontEnd, afterTokens, hg, hrun, hparse, htc, hvl, hl, hb]
+              | ok out =>
+                cases out <;>
+                simp [compile, compileWith, hs, runSteps, Model.CompileSteps.step, front, frontEnd, afterTokens, hg, hrun, hparse, htc, hvl, hl, hb]
+
+/-- build_pipeline() for MetalBytecode on a host without the tool chain: the export's error, else MetalCompilerNotFound -/
+theorem buildPipeline_metal_bytecode_no_toolchain {τ α ρ π σ : Type} (w : World τ α ρ π σ) (a : Args)
+    (ht : a.target = Target.MetalBytecode) (hn : w.toolchain = none) (m : ρ) (p : π) :
+    buildPipeline w a none m p =
+      match w.exportMsl (paramsFor a.target a.sba) m p with
+      | .error e => .error (.text e)
+      | .ok _ => .error .metalCompilerNotFound := by
+  obtain ⟨_, h1, _, h3, _⟩ := frontEndRunsBeforeAnyTargetSpecificStep
+  obtain ⟨t, sba, vl, fr⟩ := a
+  simp only at ht
+  subst ht
+  cases hx : w.exportMsl (paramsFor Target.MetalBytecode sba) m p <;>
+    simp [buildPipeline, h1, h3, armSteps, backendOf, runBuild, hn, hx]
+
+/-- build_pipeline() for Msl: the export's verdict; the tool chain is not consulted -/
+theorem buildPipeline_msl {τ α ρ π σ : Type} (w : World τ α ρ π σ) (a : Args)
+    (ht : a.target = Target.Msl) (m : ρ) (p : π) :
+    buildPipeline w a none m p =
+      match w.exportMsl (paramsFor a.target a.sba) m p with
+      | .error e => .error (.text e)
+      | .ok s => .ok s := by
+  obtain ⟨_, h1, _, h3, _⟩ := frontEndRunsBeforeAnyTargetSpecificStep
+  obtain ⟨t, sba, vl, fr⟩ := a
+  simp only at ht
+  subst ht
+  cases hx : w.exportMsl (paramsFor Target.Msl sba) m p <;>
+    simp [buildPipeline, h1, h3, armSteps, backendOf, runBuild, hx]
+
+/-- **The front-end verdict and diagnostic are the same for every target configuration, MetalBytecode included, with or
+    without a Metal tool chain on the host**: if the front end rejects the file with diagnostic `e` for one configuration
+    (file and user defines not naming the two target macros), `compile()` returns exactly `Text(e)` for that and for
+    every other admissible configuration, whatever `find()` would answer. -/
+theorem front_end_diagnostic_same_for_every_target {τ α ρ π σ : Type} (w : World τ α ρ π σ)
+    (tc : Option (σ → Option σ)) (a a' : Args)
+    (hfront : a'.front = a.front) (hvl : a'.validateLayout = a.validateLayout)
+    (hok : argsOk a = true) (hok' : argsOk a' = true)
+    (huser : TableClean ["RSSL_TARGET_HLSL", "RSSL_TARGET_MSL"] a.front.user)
+    (hfile : LinesClean ["RSSL_TARGET_HLSL", "RSSL_TARGET_MSL"] a.front.file)
+    (e : String) (h : front w a = .error e) :
+    compile w a = .error (.text e) ∧ compile { w with toolchain := tc } a' = .error (.text e) := by
+  have h' : front { w with toolchain := tc } a' = .error e := by
+    rw [← h]
+    simp only [front, hfront, hvl]
+    exact targets_share_front_end w.ev w.render _ a'.target a.target a.front huser hfile
+  simp only [argsOk, Bool.not_eq_true'] at hok hok'
+  constructor
+  · rw [compile_factors_through_front_end, h]; simp [hok]
+  · rw [compile_factors_through_front_end, h']; simp [hok']
+
+/-- Tie to the source: Msl and MetalBytecode get the same define list (and the same binding parameters) -/
+theorem msl_metal_bytecode_same_defines :
+    targetDefineNums Target.MetalBytecode = targetDefineNums Target.Msl ∧
+    (∀ sba, paramsFor Target.MetalBytecode sba = paramsFor Target.Msl sba) := by
+  constructor
+  · decide
+  · intro sba; rfl
+
+/-- Msl and MetalBytecode share the front end unconditionally (same macro table: no cleanliness hypothesis needed) -/
+theorem front_metal_bytecode_eq_msl {τ α ρ π σ : Type} (w : World τ α ρ π σ) (sba sba' vl : Bool) (fr : FrontArgs) :
+    front w ⟨Target.MetalBytecode, sba, vl, fr⟩ = front w ⟨Target.Msl, sba', vl, fr⟩ := by
+  simp only [front, frontEnd, initialTable, builtinTable, msl_metal_bytecode_same_defines.1]
+
+/-- **MetalBytecode on a host without the tool chain, closed form**: the front end's diagnostic; else "no pipeline";
+    else the Metal export error of the *first* pipeline; else `MetalCompilerNotFound` (the driver predicts the fifth
+    verdict of `C18.cross` with this). -/
+theorem metal_bytecode_without_toolchain {τ α ρ π σ : Type} (w : World τ α ρ π σ) (a : Args)
+    (ht : a.target = Target.MetalBytecode) (hsba : a.sba = false) (hn : w.toolchain = none) :
+    compile w a =
+      match front w a with
+      | .error e => .error (.text e)
+      | .ok m =>
+        match w.pipelines m with
+        | [] => .error (.text noPipelineText)
+        | p :: _ =>
+          match w.exportMsl (paramsFor Target.MetalBytecode false) m p with
+          | .error e => .error (.text e)
+          | .ok _ => .error .metalCompilerNotFound := by
+  rw [compile_factors_through_front_end]
+  simp only [hsba, Bool.false_and, Bool.false_eq_true, if_false]
+  cases front w a with
+  | error e => rfl
+  | ok m =>
+    simp only
+    cases hp : w.pipelines m with
+    | nil => simp [buildAll]
+    | cons p ps =>
+      simp only [buildAll, buildPipeline_metal_bytecode_no_toolchain w a ht hn, ht, hsba]
+      cases w.exportMsl (paramsFor Target.MetalBytecode false) m p <;> rfl
+
+/-- the same closed form for Msl (no argument error: buffer addresses are not requested) -/
+theorem msl_verdict {τ α ρ π σ : Type} (w : World τ α ρ π σ) (a : Args)
+    (_ht : a.target = Target.Msl) (hsba : a.sba = false) :
+    compile w a =
+      match front w a with
+      | .error e => .error (.text e)
+      | .ok m =>
+        match buildAll w a none m (w.pipelines m) with
+        | .error e => .error e
+        | .ok [] => .error (.text noPipelineText)
+        | .ok (d :: ds) => .ok (d :: ds) := by
+  rw [compile_factors_through_front_end]
+  simp only [hsba, Bool.false_and, Bool.false_eq_true, if_false]
+
+/-- a file that compiles for Msl ends, for MetalBytecode on a host without the tool chain, in exactly the tool chain error -/
+theorem valid_for_msl_metal_bytecode_ends_at_toolchain {τ α ρ π σ : Type} (w : World τ α ρ π σ)
+    (vl : Bool) (fr : FrontArgs) (hn : w.toolchain = none) (out : List σ)
+    (h : compile w ⟨Target.Msl, false, vl, fr⟩ = .ok out) :
+    compile w ⟨Target.MetalBytecode, false, vl, fr⟩ = .error .metalCompilerNotFound := by
+  rw [metal_bytecode_without_toolchain w _ rfl rfl hn, front_metal_bytecode_eq_msl w false false vl fr]
+  rw [msl_verdict w _ rfl rfl] at h
+  cases hf : front w ⟨Target.Msl, false, vl, fr⟩ with
+  | error e => simp [hf] at h
+  | ok m =>
+    simp only [hf] at h ⊢
+    cases hp : w.pipelines m with
+    | nil => simp [hp, buildAll] at h
+    | cons p ps =>
+      simp only [hp, buildAll, buildPipeline_msl w ⟨Target.Msl, false, vl, fr⟩ rfl] at h ⊢
+      rw [msl_metal_bytecode_same_defines.2]
+      cases hx : w.exportMsl (paramsFor Target.Msl false) m p with
+      | error e => simp [hx] at h
+      | ok s => rfl
+
+/-- a file rejected for Msl is rejected for MetalBytecode with the same error (front end, no pipeline, first pipeline's
+    export), or - when a later pipeline was the one Metal refused - with the tool chain error of the first pipeline -/
+theorem rejected_for_msl_metal_bytecode_same_or_toolchain {τ α ρ π σ : Type} (w : World τ α ρ π σ)
+    (vl : Bool) (fr : FrontArgs) (hn : w.toolchain = none) (e : CErr)
+    (h : compile w ⟨Target.Msl, false, vl, fr⟩ = .error e) :
+    compile w ⟨Target.MetalBytecode, false, vl, fr⟩ = .error e ∨
+    compile w ⟨Target.MetalBytecode, false, vl, fr⟩ = .error .metalCompilerNotFound := by
+  rw [metal_bytecode_without_toolchain w _ rfl rfl hn, front_metal_bytecode_eq_msl w false false vl fr]
+  rw [msl_verdict w _ rfl rfl] at h
+  cases hf : front w ⟨Target.Msl, false, vl, fr⟩ with
+  | error e' => left; simpa [hf] using h
+  | ok m =>
+    simp only [hf] at h ⊢
+    cases hp : w.pipelines m with
+    | nil => left; simpa [hp, buildAll] using h
+    | cons p ps =>
+      simp only [hp, buildAll, buildPipeline_msl w ⟨Target.Msl, false, vl, fr⟩ rfl] at h ⊢
+      rw [msl_metal_bytecode_same_defines.2]
+      cases hx : w.exportMsl (paramsFor Target.Msl false) m p with
+      | error e' => left; simpa [hx] using h
+      | ok s => right; rfl
+
+/-- a small world for the non-vacuity examples: a file of three tokens is a type error, a module has as many pipelines
+    as the file has tokens, Metal refuses the second pipeline, the tool chain is `tc` -/
+def exWorld (tc : Option (String → Option String)) : World (List Tok) Nat Nat Nat String :=
+  { ev := fun _ => some true, render := fun _ => "error: preprocessor", prepare := id,
+    parse := fun ts => if ts.length == 0 then .error "error: unexpected end of file" else .ok ts.length,
+    typeCheck := fun n => if n == 3 then .error "error: unknown identifier" else .ok n,
+    layoutCheck := fun _ => .ok (), pipelines := fun n => List.range n,
+    exportHlsl := fun _ _ _ _ => .ok "hlsl", toolchain := tc,
+    exportMsl := fun _ _ p => if p == 1 then .error "error: metal generate: unsupported" else .ok "msl" }
+
+def exFile (n : Nat) : FrontArgs := ⟨[], [.text ((List.range n).map fun _ => .id "a")]⟩
+
+/-- non-vacuity: a front-end-invalid file gets the same diagnostic for every configuration, also for MetalBytecode on a
+    host without the tool chain; a valid file compiles for the first four and ends in the tool chain error for the fifth;
+    a file whose second pipeline Metal refuses is a back-end error for Msl and the tool chain error for MetalBytecode;
+    and the order matters: with the lookup as the second step of compile() the diagnostic of the invalid file is lost -/
+example :
+    (∀ c ∈ [(Target.HlslForDirectX, false), (Target.HlslForVulkan, false), (Target.HlslForVulkan, true), (Target.Msl, false),
+        (Target.MetalBytecode, false)],
+      compile (exWorld none) ⟨c.1, c.2, false, exFile 3⟩ = .error (.text "error: unknown identifier")) ∧
+    compile (exWorld none) ⟨Target.HlslForDirectX, false, false, exFile 1⟩ = .ok ["hlsl"] ∧
+    compile (exWorld none) ⟨Target.Msl, false, false, exFile 1⟩ = .ok ["msl"] ∧
+    compile (exWorld none) ⟨Target.MetalBytecode, false, false, exFile 1⟩ = .error .metalCompilerNotFound ∧
+    compile (exWorld (some fun s => some (s ++ ".air"))) ⟨Target.MetalBytecode, false, false, exFile 1⟩ = .ok ["msl.air"] ∧
+    compile (exWorld (some fun _ => none)) ⟨Target.MetalBytecode, false, false, exFile 1⟩ = .error .metalCompilerFailed ∧
+    compile (exWorld none) ⟨Target.Msl, false, false, exFile 2⟩ = .error (.text "error: metal generate: unsupported") ∧
+    compile (exWorld none) ⟨Target.MetalBytecode, false, false, exFile 2⟩ = .error .metalCompilerNotFound ∧
+    compile (exWorld none) ⟨Target.Msl, true, false, exFile 1⟩ = .error .invalidArgs ∧
+    compileWith [.argsCheck, .toolchainLookup, .preprocess, .prepareTokens, .parse, .typeCheck, .layoutCheck, .bindingParams,
+      .buildPipelines] (exWorld none) ⟨Target.MetalBytecode, false, false, exFile 3⟩ = .error .metalCompilerNotFound := by
+  refine ⟨?_, rfl, rfl, rfl, rfl, rfl, rfl, rfl, rfl, rfl⟩
+  intro c hc
+  simp only [List.mem_cons, List.not_mem_nil, or_false] at hc
+  rcases hc with rfl | rfl | rfl | rfl | rfl <;> rfl
+end CompileSteps
 
 end RsslVerif.Thm.C18
